@@ -110,4 +110,79 @@ theorem flush_spec (s : St) :
         | true => simp [hdb]
         | false => simp [hdb]
 
+/-! ### the reconciliation itself can be interrupted anywhere -/
+
+theorem hit_files (fs : FS) (name : String) : (hit fs name).1.files = fs.files := by
+  unfold hit
+  cases fs.arm with
+  | none => rfl
+  | some a =>
+    simp only []
+    split
+    · rfl
+    · split <;> rfl
+
+theorem rollbackDelete_fileAt (wf : Nat) : ∀ (n : Nat) (fs : FS) (i : Nat), i ≤ wf →
+    fileAt (rollbackDelete wf n fs).1.files i = fileAt fs.files i := by
+  intro n
+  induction n with
+  | zero => intro fs i _; rfl
+  | succ n ih =>
+    intro fs i hi
+    simp only [rollbackDelete]
+    rcases hh : hit { fs with files := setFile fs.files (wf + n + 1) none } "rollback.afterDelete" with ⟨fs1, dead⟩
+    have hf1 : fs1.files = setFile fs.files (wf + n + 1) none := by
+      have := hit_files { fs with files := setFile fs.files (wf + n + 1) none } "rollback.afterDelete"
+      rw [hh] at this; exact this
+    cases dead with
+    | true => simp only [if_true]; rw [hf1, fileAt_setFile_other _ _ _ _ (by omega)]
+    | false =>
+      simp only [Bool.false_eq_true, if_false]
+      rw [ih fs1 i hi, hf1, fileAt_setFile_other _ _ _ _ (by omega)]
+
+theorem regionOf_congr (fs fs' : Files) (loc : Loc) (h : fileAt fs' loc.file = fileAt fs loc.file) :
+    regionOf fs' loc = regionOf fs loc := by
+  unfold regionOf; rw [h]
+
+/-- **`handleRollback` can die at any of its crash points** (after each file deletion, before and
+    after the truncation): at every such point, and when it completes, every byte range below the
+    persisted cursor is what it was. -/
+theorem rollback_keeps_records (fs : FS) (wf wo sf : Nat) (loc : Loc) (f : Bytes)
+    (hf : fileAt fs.files wf = some f) (hwo : wo ≤ f.length) (hb : Below wf wo loc) :
+    regionOf (rollback fs wf wo sf).1.files loc = regionOf fs.files loc := by
+  have hle : loc.file ≤ wf := by rcases hb with h | h <;> omega
+  unfold rollback
+  rcases hd : rollbackDelete wf (sf - wf) fs with ⟨fs1, dead1⟩
+  have h1 : ∀ i, i ≤ wf → fileAt fs1.files i = fileAt fs.files i := by
+    intro i hi
+    have := rollbackDelete_fileAt wf (sf - wf) fs i hi
+    rw [hd] at this; exact this
+  cases dead1 with
+  | true => simp only [if_true]; exact regionOf_congr _ _ _ (h1 _ hle)
+  | false =>
+    simp only [Bool.false_eq_true, if_false]
+    have hf1 : fileAt fs1.files wf = some f := by rw [h1 wf (Nat.le_refl _)]; exact hf
+    simp only [hf1]
+    rcases hh : hit fs1 "rollback.beforeTruncate" with ⟨fs2, dead2⟩
+    have hf2 : fs2.files = fs1.files := by
+      have := hit_files fs1 "rollback.beforeTruncate"; rw [hh] at this; exact this
+    cases dead2 with
+    | true => simp only [if_true]; rw [hf2]; exact regionOf_congr _ _ _ (h1 _ hle)
+    | false =>
+      simp only [Bool.false_eq_true, if_false]
+      rw [hit_files]
+      simp only [hf2, hf1, Option.getD_some]
+      have h0 : wo - f.length = 0 := by omega
+      rw [h0]
+      simp only [List.replicate_zero, List.append_nil]
+      rcases hb with hb | ⟨hb1, hb2⟩
+      · rw [← regionOf_congr fs.files fs1.files loc (h1 _ hle)]
+        exact regionOf_congr _ _ _ (fileAt_setFile_other _ _ _ _ (by omega))
+      · unfold regionOf
+        rw [hb1, fileAt_setFile_same, hf]
+        simp only [Option.bind_some, List.length_take]
+        have h2 : loc.off + loc.len ≤ f.length := by omega
+        rw [if_pos (by omega), if_pos h2, List.drop_take, List.take_take]
+        rw [show min loc.len (wo - loc.off) = loc.len by omega]
+
 end ElaVerif.Crash
